@@ -507,6 +507,23 @@ class Facts:
                 st.append(c)
         return out
 
+    def sites_in_family(self, body, pat):
+        """Call sites of `pat` that run on behalf of `body`: its own calls, and calls inside closures it creates (attributed
+        to the block that creates the closure - e.g. `res.map(|item| io.encode(item))`). -> [(block in body, call term, closure path or None)]"""
+        out = [(bi, t, None) for bi, t in body.calls_to(pat)]
+        for c in self.descendants(body):
+            hits = list(c.calls_to(pat))
+            if not hits:
+                continue
+            root = c
+            while root.d.get('parent') and root.d.get('parent') != body.path and root.d.get('parent') in self.bodies:
+                root = self.bodies[root.d['parent']]
+            created = [bi for bi, j, s in body.assigns() if s['rv']['k'] == 'agg' and s['rv'].get('def') == root.path]
+            for bi in created:
+                for xb, t in hits:
+                    out.append((bi, t, c.path))
+        return out
+
     def family(self, body):
         return [body] + self.descendants(body)
 
@@ -1033,6 +1050,55 @@ def variant_edges(F, body, adt):
                 out[by_discr[d] + '?'].append((sb, oth))
             if len(rest) == 1:
                 out[by_discr[rest[0]]].append((sb, oth))
+    return out
+
+
+def enum_eq_edges(F, body, adt):
+    """{variant: [(switch_block, target)]} for tests written `x == Enum::Variant` / `x != ..` (derived PartialEq on a
+    fieldless enum compared with a constant) - the counterpart of variant_edges for `match x`."""
+    from symex import SymEx
+    out = defaultdict(list)
+    short = adt.split('::')[-1]
+    for bi, t in body.calls():
+        nm = callee_name(t) or ''
+        m = re.search(r'<%s as std::cmp::PartialEq>::(eq|ne)$' % re.escape(adt), nm)
+        if not m or len(t['args']) != 2:
+            continue
+        var = None
+        for a in t['args']:
+            # the constant side: a promoted `&Enum::Variant` or a local assigned the fieldless aggregate
+            for leaf in Origin(body).of_operand(a):
+                if leaf[0] == 'agg' and leaf[1].startswith(adt + '::'):
+                    var = leaf[1].split('::')[-1]
+            c = op_const(a)
+            p_ = op_place(a)
+            for _ in range(6):
+                if c is not None or p_ is None:
+                    break
+                nxt = None
+                for d_ in body.whole_defs(p_['l']):
+                    if d_[2] != 'assign':
+                        continue
+                    rv_ = d_[3]['rv']
+                    if rv_['k'] == 'use':
+                        c = op_const(rv_['op']) or c
+                        nxt = op_place(rv_['op'])
+                    elif rv_['k'] == 'ref':
+                        nxt = rv_['place']
+                p_ = nxt
+            if c is not None and isinstance(c.get('promoted'), int) and not isinstance(c.get('promoted'), bool) and c.get('def'):
+                v = F.promoted_value(c['def'], c['promoted'])
+                while v and v[0] in ('ref', 'deref'):
+                    v = v[1]
+                if v and v[0] == 'agg' and v[1] == adt:
+                    var = v[2]
+        if var is None:
+            continue
+        r = call_bool_branch(body, bi)
+        if not r or r[0] == 'discr':
+            continue
+        sb, tt, ft = r
+        out[var].append((sb, tt if m.group(1) == 'eq' else ft))
     return out
 
 
